@@ -40,7 +40,7 @@ import sys
 from pathlib import Path
 
 from .pyexpr import Refuse, refuse, find_class, find_func
-from .tr_rooms import _Strip, _attr_chain, _is_logger
+from .tr_rooms import _Strip, _attr_chain, _is_logger, fingerprint_table
 
 PINS = Path(__file__).with_name('pins_session.json')
 
@@ -52,8 +52,40 @@ PINNED = [
                                               '_notify_children_of_branch_values', 'send_messages_to_children']),
     ('user/manager.py', 'UserManager', ['track_user', 'track_friends', 'track_friend']),
     ('user/manager.py', 'UserTrackingManager', ['_request_tracking', '_on_state_changed', 'stop']),
-    ('tasks.py', 'BackgroundTask', ['start', 'cancel']),
-]
+    ('tasks.py', 'BackgroundTask', ['*']),
+    # helpers the modelled behaviour relies on
+    ('events.py', 'EventBus', ['*']),
+    ('events.py', 'SessionInitializedEvent', ['*']), ('events.py', 'SessionDestroyedEvent', ['*']),
+    ('events.py', 'ConnectionStateChangedEvent', ['*']), ('events.py', 'ServerReconnectedEvent', ['*']),
+    ('utils.py', None, ['cancel_task', 'ticket_generator', 'task_counter']),
+    ('base_manager.py', 'BaseManager', ['*']),
+    ('session.py', 'Session', ['*']),
+    ('exceptions.py', 'InvalidSessionError', ['*']), ('exceptions.py', 'AuthenticationError', ['*']),
+    ('exceptions.py', 'ConnectionFailedError', ['*']), ('exceptions.py', 'ConnectionWriteError', ['*']),
+    ('settings.py', 'ReconnectSettings', ['*']), ('settings.py', 'RoomsSettings', ['*']), ('settings.py', 'InterestsSettings', ['*']),
+    ('settings.py', 'CredentialsSettings', ['*']), ('settings.py', 'ListeningSettings', ['*']), ('settings.py', 'DebugSettings', ['*']),
+    ('client.py', 'SoulSeekClient', ['execute', 'start', 'connect', 'register_listeners', '_on_connection_state_changed']),
+    ('commands.py', 'JoinRoomCommand', ['*']),
+    ('network/network.py', 'Network', ['send_server_messages', 'on_state_changed', 'initialize', 'connect_server', 'disconnect_server',
+                                       'start_server_connection_watchdog', 'stop_server_connection_watchdog', 'register_listeners',
+                                       'connect_listening_ports', 'disconnect_listening_ports']),
+    ('network/connection.py', 'Connection', ['set_state']),
+    ('network/connection.py', 'DataConnection', ['send_message', 'start_reader_task', '_message_reader_loop', '_read', 'queue_message',
+                                                 '_cancel_queued_messages']),
+    ('network/connection.py', 'ConnectionState', ['*']), ('network/connection.py', 'CloseReason', ['*']),
+    ('network/connection.py', 'ServerConnection', ['*']),
+    ('server.py', 'ServerManager', ['*']),
+    ('user/model.py', 'TrackingFlag', ['*']), ('user/model.py', 'UserStatus', ['*']),
+    ('user/manager.py', 'UserManager', ['stop', 'get_self', 'reset_users', '_on_state_changed', '_on_session_destroyed', 'register_listeners']),
+    ('user/manager.py', 'UserTrackingManager', ['_tracking_task', '_set_tracking_state', '_request_retry', '_get_tracked_user_object',
+                                                '_on_tracking_task_done', 'track_user', 'register_listeners']),
+    ('room/manager.py', 'RoomManager', ['reset_rooms', '_on_state_changed', 'register_listeners']),
+    ('shares/manager.py', 'SharesManager', ['get_stats', '_on_session_destroyed']),
+    ('distributed.py', 'DistributedNetwork', ['_on_potential_parents', '_cancel_potential_parent_tasks', '_reset_server_values',
+                                              '_on_state_changed', 'register_listeners', '_on_session_destroyed']),
+] + [('protocol/messages.py', f'{m}.Request', ['*']) for m in [
+    'Login', 'SetListenPort', 'CheckPrivileges', 'SetStatus', 'AddUser', 'AddInterest', 'AddHatedInterest', 'TogglePrivateRoomInvites',
+    'JoinRoom', 'SharedFoldersFiles', 'BranchLevel', 'BranchRoot', 'ToggleParentSearch']] + [('protocol/messages.py', 'Login.Response', ['*'])]
 
 SETTINGS = {
     ('rooms', 'private_room_invites'): 's_invites s', ('rooms', 'auto_join'): 's_auto_join s',
@@ -65,18 +97,7 @@ MANAGER_ORDER = ['network', 'distributed_network', 'users', 'rooms', 'interests'
 
 
 def fingerprints(src: Path) -> dict:
-    out = {}
-    for rel, cls, funcs in PINNED:
-        tree = ast.parse((src / 'aioslsk' / rel).read_text())
-        c = find_class(tree, cls)
-        for f in funcs:
-            fn = find_func(c.body, f)
-            fn = _Strip().visit(ast.parse(ast.unparse(fn)).body[0])
-            fn.returns = None
-            for a in fn.args.args + fn.args.kwonlyargs:
-                a.annotation = None
-            out[f'{cls}.{f}'] = hashlib.sha256(ast.dump(fn, annotate_fields=False).encode()).hexdigest()[:16]
-    return out
+    return fingerprint_table(src, PINNED)
 
 
 def settings_path(e):
